@@ -93,6 +93,7 @@ def c01(run):
     if usable and h:
         # "never dropped by lazy deletion on read / DeleteExpired": reads of expired-uncleaned keys racing writers
         sched_runs(run, h, ("cache", "cacheof"), "lazy", ("NONLIN", "PREFILL"), quick=(150, 6))
+        trace_cache_runs(run, h, quick=(40, 4), focuses=("", "lazy"))
     return R.finish(run, GAPS["C01"])
 
 
@@ -143,6 +144,7 @@ def c02(run):
     if usable and h:
         sched_runs(run, h, ("cache", "cacheof"), "", ("NONLIN", "PREFILL"), quick=(400, 6))
         sched_runs(run, h, ("cache", "cacheof"), "lazy", ("NONLIN", "PREFILL"), quick=(200, 6))
+        trace_cache_runs(run, h)
     return R.finish(run, GAPS.get("C02", []))
 
 
@@ -242,6 +244,7 @@ def c06(run):
         sched_runs(run, h, ("cache", "cacheof"), "", ("CALLBACK", "NONLIN", "PREFILL"), quick=(120, 6))
         sched_runs(run, h, ("cache", "cacheof"), "range", ("CALLBACK",), quick=(40, 6), lin=False)
         sched_runs(run, h, ("cache", "cacheof"), "lazy", ("CALLBACK", "NONLIN"), quick=(80, 6))
+        trace_cache_runs(run, h, quick=(40, 4))
     if ch:
         R.native_run(run, "janitor_callbacks", [ch, "janitor"], ["BAD", "panic:"])
     return R.finish(run, GAPS.get("C06", []))
@@ -288,6 +291,7 @@ def c09(run):
     if usable and h:
         # reported instants under concurrency: GetWithExpiration / GetWithTTL racing writers that re-arm the key
         sched_runs(run, h, ("cache", "cacheof"), "lazy", ("NONLIN", "PREFILL"), quick=(200, 6))
+        trace_cache_runs(run, h, quick=(40, 4), focuses=("", "lazy"))
     return R.finish(run, GAPS.get("C09", []))
 
 
